@@ -1,4 +1,138 @@
-(* C14 -- WebSocket reader enforces RFC 6455 framing rules and the read limit (stub). *)
-From Verif Require Import Lib.Base Lib.Sx Model.WsRead.
-Theorem c14_stub : True. Proof. exact I. Qed.
-Print Assumptions c14_stub.
+(* C14 -- the WebSocket reader enforces RFC 6455 framing rules and the read limit.
+
+   lib_session fixed server limit extra bs  (Model/WsRead.v, first half) is the library: a Conn made by
+     newConn(isServer = server) + SetReadLimit(limit) whose transport delivers the bytes bs and then
+     EOF; the application calls ReadMessage until the first error and then [extra] more times.
+     Result: the values returned (RMsg type payload / RErr error) and the control frames written.
+   rfc_receive server limit bs  (second half, written from RFC 6455, shares no code with the
+     first) is the receiver of the RFC: the events (messages delivered, Pongs sent) up to the
+     first rule violation / Close / oversized message / end of stream, and that outcome.
+   fixed = true is the code after the two fix: commits (2c92c1f, 02df1eb); fixed = false the pinned
+   snapshot, for which c14_len63_refuted / c14_limit_refuted hold.
+
+   Deliberately NOT enforced by rfc_receive, as by the library (the property does not list them):
+   (a) a 1-byte Close body is treated as "no status"; (b) UTF-8 validity of Text messages;
+   (c) RSV1 with permessage-deflate (C14 is stated for compression not negotiated);
+   (d) minimal length encoding on DATA frames (5.2) -- on control frames an extended length form is
+   rejected, being either oversized or non-minimal.  Close codes: valid = 1000-1003, 1007-1013,
+   3000-4999 (RFC 7.4.1/7.4.2 plus the two IANA registrations the library's table cites). *)
+From Verif Require Import Lib.Base Lib.Sx Lib.Utf8 Model.WsRead.
+From Verif Require Import Proofs.WsReadUtf8 Proofs.WsRead Proofs.WsReadRefine Proofs.WsReadProps Proofs.WsReadCut Proofs.WsReadFrames.
+From Verif Require Import Gen.Gen_websocket.
+Open Scope Z_scope.
+
+(* For EVERY byte stream (every frame sequence in every length form -- 64-bit lengths with the top
+   bit set included --, every payload, every cut offset, garbage), both roles, every limit that
+   fits int64: the library returns exactly the messages the RFC receiver delivers, in order, then
+   fails, and every further call (up to the deliberate panic, c14_repeat_panic) returns the same
+   error; it writes exactly one Pong per Ping with the same payload, then the Close frame the
+   outcome calls for ([agrees]: violation -> 1002, too big -> 1009, peer Close -> echo of its code,
+   end of stream -> nothing) and nothing else.
+   [agrees] allows one latitude: when the stream ends INSIDE a frame header whose first bytes
+   already break a rule the library may answer 1002 instead of unexpected-EOF. *)
+Theorem c14_refines_rfc server limit extra bs :
+  wf_bytes bs -> limit < 9223372036854775808 -> (extra < 999)%nat ->
+  exists e closefr,
+    agrees (snd (rfc_receive server limit bs)) e closefr /\
+    lib_session true server limit extra bs =
+      Ok (msgs_of (fst (rfc_receive server limit bs)) ++ repeat (RErr e) (S extra),
+          pongs_of (fst (rfc_receive server limit bs)) ++ closefr) /\
+    (length closefr <= 1)%nat.
+Proof. exact (lib_refines_rfc server limit extra bs). Qed.
+
+(* Go's utf8.ValidString, used for the Close reason, accepts exactly the RFC 3629 strings
+   (no surrogates, no overlong forms, nothing above U+10FFFF). *)
+Theorem c14_utf8 s : wf_bytes s -> utf8_valid s = utf8_spec s.
+Proof. exact (utf8_valid_spec s). Qed.
+
+(* the library's close-code table (regenerated from conn.go) is the RFC's *)
+Theorem c14_close_codes code : is_valid_received_close_code (Z.of_N code) = rfc_close_code_ok code.
+Proof. exact (close_code_table code). Qed.
+
+(* A 64-bit length with the top bit set is never accepted as a frame -- from every reader state
+   that is at a frame boundary (any role, limit, flags, history). *)
+Theorem c14_top_bit_rejected c p0 p1 l r :
+  c_rem c <= 0 -> c_in c = p0 :: p1 :: l ++ r -> wf_byte p0 -> wf_byte p1 -> wf_bytes l -> wf_bytes r ->
+  length l = 8%nat -> (p1 mod 128 = 127)%N -> (9223372036854775808 <= be_val l)%N ->
+  exists c' m, advance_frame true c = MErr c' (EProto m).
+Proof. exact (top_bit_rejected c p0 p1 l r). Qed.
+
+(* With a limit L > 0 no message longer than L is ever returned, under every framing of it. *)
+Theorem c14_limit server limit extra bs :
+  wf_bytes bs -> 0 < limit < 9223372036854775808 -> (extra < 999)%nat ->
+  exists rs ws, lib_session true server limit extra bs = Ok (rs, ws) /\
+    forall t p, In (RMsg t p) rs -> Z.of_nat (length p) <= limit.
+Proof. exact (read_limit_holds server limit extra bs). Qed.
+
+(* Pings are answered with Pongs carrying the same payload, in order; at most one Close after them. *)
+Theorem c14_ping_pong server limit extra bs :
+  wf_bytes bs -> limit < 9223372036854775808 -> (extra < 999)%nat ->
+  exists rs closefr, (length closefr <= 1)%nat /\
+    lib_session true server limit extra bs = Ok (rs, pongs_of (fst (rfc_receive server limit bs)) ++ closefr).
+Proof. exact (ping_pong_holds server limit extra bs). Qed.
+
+(* A stream cut inside a frame or a fragmented message (or anywhere): for every stream s and every
+   cut offset k, reading firstn k s returns a PREFIX of the messages that reading all of s returns
+   -- every one of them whole, never a shortened message -- followed by an error. *)
+Theorem c14_cut server limit s k :
+  wf_bytes s -> limit < 9223372036854775808 ->
+  exists rs1 ws1 rs2 ws2 more e,
+    lib_session true server limit 0 (firstn k s) = Ok (rs1, ws1) /\
+    lib_session true server limit 0 s = Ok (rs2, ws2) /\
+    delivered rs2 = delivered rs1 ++ more /\
+    rs1 = delivered rs1 ++ [RErr e].
+Proof. exact (cut_delivers_prefix server limit s k). Qed.
+
+(* "Every byte stream" above includes every frame sequence: the RFC parser inside rfc_receive
+   reads back any frame written per RFC 6455 5.2/5.3 -- any FIN/RSV/opcode/mask bit, each of the
+   three length forms (form_ok), any key and payload -- and classifies a 64-bit length with the top
+   bit set as not-a-frame. *)
+Theorem c14_frame_parses_back fin rsv op masked form key payload rest :
+  (rsv < 8)%N -> (op < 16)%N -> form_ok form (lenN payload) -> (lenN payload < two63)%N -> length key = 4%nat ->
+  exists h, rfc_header (ser_frame fin rsv op masked form key payload ++ rest) =
+              HOk h ((if masked then rfc_unmask key 0 payload else payload) ++ rest) /\
+    f_fin h = fin /\ f_rsv h = rsv /\ f_op h = op /\ f_masked h = masked /\ f_len h = lenN payload /\
+    rfc_payload h ((if masked then rfc_unmask key 0 payload else payload) ++ rest) = Some (payload, rest).
+Proof. exact (frame_parses_back fin rsv op masked form key payload rest). Qed.
+
+Theorem c14_top_bit_not_a_frame fin rsv op masked len key rest :
+  (rsv < 8)%N -> (op < 16)%N -> (two63 <= len < 18446744073709551616)%N -> length key = 4%nat ->
+  rfc_header (ser_header fin rsv op masked 64 len key ++ rest) = HBadLen.
+Proof. exact (top_bit_not_a_frame fin rsv op masked len key rest). Qed.
+
+(* No run-time panic for any byte stream and fewer than 1000 failed reads (C07 imports this). *)
+Theorem ws_read_total server limit extra bs :
+  wf_bytes bs -> limit < 9223372036854775808 -> (extra < 999)%nat ->
+  forall s, lib_session true server limit extra bs <> Panic s.
+Proof. exact (WsReadProps.ws_read_total server limit extra bs). Qed.
+
+(* the deliberate panic: the 1000th ReadMessage on a failed connection *)
+Theorem c14_repeat_panic :
+  lib_session true false 0 999 [129%N] = Panic 1000 /\
+  lib_session true false 0 998 [129%N] = Ok (repeat (RErr EUeof) 999, []).
+Proof. exact repeat_panic. Qed.
+
+(* the pinned snapshot (before the fix: commits) violated the property: *)
+Theorem c14_len63_refuted :
+  lib_session false false 0 0 ([130; 127] ++ be8 (2 ^ 63) ++ [129; 2; 104; 105])%N
+  = Ok ([RMsg 2 []; RMsg 1 [104; 105]%N; RErr EUeof], []).
+Proof. exact len63_refuted. Qed.
+Theorem c14_limit_refuted :
+  exists p, (lenN p = 50)%N /\
+  lib_session false false 10 0 ([2; 127] ++ be8 (2 ^ 64 - 100) ++ [128; 50] ++ repeat 120 50)%N
+  = Ok ([RMsg 2 p; RErr EUeof], []).
+Proof. exact limit_refuted. Qed.
+
+Print Assumptions c14_refines_rfc.
+Print Assumptions c14_utf8.
+Print Assumptions c14_close_codes.
+Print Assumptions c14_top_bit_rejected.
+Print Assumptions c14_limit.
+Print Assumptions c14_ping_pong.
+Print Assumptions c14_cut.
+Print Assumptions c14_frame_parses_back.
+Print Assumptions c14_top_bit_not_a_frame.
+Print Assumptions ws_read_total.
+Print Assumptions c14_repeat_panic.
+Print Assumptions c14_len63_refuted.
+Print Assumptions c14_limit_refuted.
